@@ -79,12 +79,22 @@ class AstAnalyzer:
         conditions. The value of such conditions is determined from the outer-scope.
         """
 
-        assigned_vars = self.assigned_vars(fun.body)
+        # Names bound inside the function are not outer-scope variables, whatever the
+        # enclosing scopes bind them to: the assigned variables and the parameters.
+        local_vars = self.assigned_vars(fun.body) | {
+            arg.arg
+            for arg in (
+                *fun.args.posonlyargs,
+                *fun.args.args,
+                *fun.args.kwonlyargs,
+                *filter(None, (fun.args.vararg, fun.args.kwarg)),
+            )
+        }
         for node in ast.walk(fun):
             if isinstance(node, ast.If):
                 if isinstance(node.test, ast.Name):
                     python_var = node.test.id
-                    if python_var not in assigned_vars and python_var in globals:
+                    if python_var not in local_vars and python_var in globals:
                         # Condition depends on an outer-scope variable.
                         self._constant_if_condition[node] = bool(globals[python_var])
 
